@@ -8,10 +8,12 @@
      (6 mapping smap arity sample_id)      -> result of (sample ids, treatment id rows) of the combinatoric space
      (7 mapping smap arity nthetas rows table) -> result of (index, matrix of optional entries);
         table = list of ((sample_id ids) values-per-theta), the stub thetas' predictions
-     (8 m preds obs chains names files)    -> result of the events of analyze_model_evaluation.main (Model/CliAnalyze.v) on an
+     (8 m preds obs chains names files seed) -> result of the events of analyze_model_evaluation.main (Model/CliAnalyze.v) on an
         evaluation file holding that evaluation and --thetas files holding the posterior samples numbered in `files` (one list
         per file, argument order); a similarity matrix is represented by the numbers of the samples it was computed from.
-        Events: (0) mkdir, (1 name samples) heat map, (2 name) / (3 name) scatter plots, (4 name percentile?) violin plot,
+        `seed` is the parsed --seed.
+        Events: (0) mkdir, (1 name samples) heat map, (2 name seed?) / (3 name seed?) scatter plots (the seed= keyword of the
+        call, absent = ()), (4 name percentile?) violin plot,
         (5 name mse mse_variance inter_chain) summary; names 0..5 in the order of CliAnalyze.an_name *)
 From Coq Require Import ZArith List QArith Qcanon.
 From Batchie Require Import Lib.Sexp Lib.Num Lib.PyRt Model.Metrics Model.Synergy Model.Corr Model.Cli Model.CliAnalyze.
@@ -44,8 +46,8 @@ Definition of_an_event (e : an_event evaluation (list Z) (result Qc)) : sexp :=
   match e with
   | AnMkdir _ => SL [SZ 0]
   | AnHeat c f => SL [SZ 1; SZ (an_name_code (snd f)); of_Zs c]
-  | AnScatter _ f => SL [SZ 2; SZ (an_name_code (snd f))]
-  | AnScatterSample _ f => SL [SZ 3; SZ (an_name_code (snd f))]
+  | AnScatter _ f sd => SL [SZ 2; SZ (an_name_code (snd f)); of_option SZ sd]
+  | AnScatterSample _ f sd => SL [SZ 3; SZ (an_name_code (snd f)); of_option SZ sd]
   | AnViolin _ f p => SL [SZ 4; SZ (an_name_code (snd f)); of_option SZ p]
   | AnSummary s f => SL [SZ 5; SZ (an_name_code (snd f)); of_result of_Qc (sum_mse s); of_result of_Qc (sum_mse_variance s);
                          of_result of_Qc (sum_inter_chain s)]
@@ -117,13 +119,13 @@ Definition run_c20 (orc : oracle) (s : sexp) : sexp :=
                     (correlation_matrix orc (tab_f tab) mp sm a nt rows)
       | _, _, _, _, _, _ => bad_input
       end
-  | SL [SZ 8; m; p; o; c; nm; files] =>
-      match as_nat m, as_Qcm p, as_Qcs o, as_Zs c, as_Zm nm, as_Zm files with
-      | Some m, Some p, Some o, Some c, Some nm, Some files =>
+  | SL [SZ 8; m; p; o; c; nm; files; sd] =>
+      match as_nat m, as_Qcm p, as_Qcs o, as_Zs c, as_Zm nm, as_Zm files, as_Z sd with
+      | Some m, Some p, Some o, Some c, Some nm, Some files, Some sd =>
           of_result (of_list of_an_event)
                     (cli_analyze (an_lib_metrics (mk_eval m p o c nm) files)
-                                 (mk_an_args [] [] (map (fun i => [Z.of_nat i]) (seq 0 (length files))) []))
-      | _, _, _, _, _, _ => bad_input
+                                 (mk_an_args [] [] (map (fun i => [Z.of_nat i]) (seq 0 (length files))) [] sd))
+      | _, _, _, _, _, _, _ => bad_input
       end
   | _ => bad_input
   end.
